@@ -451,7 +451,13 @@ CURSOR_COLLECTION_OPS = {
     "pasfmt_core::formatter::FileOptions::with_cursors": "hands the list to the formatter",
     "pasfmt_core::traits::LogicalLinesReconstructor::process_cursors": "hands the list to the tracker",
     "pasfmt_orchestrator::file_formatter::FileFormatter::output_new_cursors": "prints the list",
+    "core::iter::traits::iterator::Iterator::copied": "element-wise",
+    "core::iter::traits::iterator::Iterator::cloned": "element-wise",
 }
+# accepted inside the function that PRINTS the already mapped list (the order of the request is reproduced, nothing is decided there):
+# first element + the rest, both written out
+PRINT_ONLY_OPS = {"core::slice::split_first": "first + rest, both printed", "core::slice::split_last": "rest + last, both printed", "alloc::slice::join": "prints the list",
+                  "core::slice::len": "size only", "core::slice::is_empty": "presence only"}
 
 
 def cursor_independence(prog, rep, R):
@@ -471,6 +477,13 @@ def cursor_independence(prog, rep, R):
                 continue
             n += 1
             seen.add(c.callee)
+            if c.callee in PRINT_ONLY_OPS and b.npath.split("::{closure")[0].endswith("::output_new_cursors"):
+                # both parts of the split are consumed: a traversal (or a formatting use) of something that comes from this call exists
+                dst = c.t.get("dst")
+                used = dst is not None and (c.callee not in ("core::slice::split_first", "core::slice::split_last") or
+                                            any(any(x[0] == "call" and x[1] == c.bb for x in Origins(b).of_operand(a)) for k in b.calls() if k is not c and (k.callee or "").split("::")[-1] in ("into_iter", "iter", "next") for a in k.args))
+                rep.check(used, R, "cursor-print-op:%s" % c.callee.split("::")[-1], "output_new_cursors splits the cursor list but does not write out the rest", where=c.where(), instance={"op": c.callee.split("::")[-1], "use": PRINT_ONLY_OPS[c.callee]})
+                continue
             if not rep.check(c.callee in CURSOR_COLLECTION_OPS, R, "cursor-collection-op:%s" % (c.callee or "?").split("::")[-1],
                              "%s applies %s to a collection/iterator of cursors — only complete, element-wise traversals are reviewed (a cursor's result must not depend on the other cursors or their order)" % (short(b.npath), c.callee),
                              where=c.where()):
@@ -567,7 +580,17 @@ def cursor_offsets_reach_the_core_unmodified(prog, rep, R):
                 ok = bool(o) and all(x[0] in ("param", "upvar") for x in o)
                 rep.check(ok, R, "cursor-payload:%s" % short(b.npath), "%s builds a Cursor from %s instead of the user's offset itself" % (short(b.npath), sorted(x[2].split("::")[-1] if x[0] == "call" else x[0] for x in o)),
                           where="%s:%d" % (b.file, abs(s2.get("line", 0))), instance={"body": short(b.npath), "payload": "element of the --cursor list, unmodified"})
-    rep.floor(R, "Cursor values built outside the core", n, 2)
+        # `.map(Cursor)`: the constructor itself is the mapping function — the payload is the iterator's item; the iterator may only be the
+        # user's list, element-wise (iter / copied / cloned / into_iter)
+        for c in b.calls():
+            if (c.callee or "").endswith("Iterator::map") and len(c.args) >= 2 and c.args[1]["k"] == "const" and norm(c.args[1].get("fn", "")) == "pasfmt_core::formatter::Cursor":
+                n += 1
+                o = Origins(b, extra_identity={"core::slice::iter", "core::iter::traits::iterator::Iterator::copied", "core::iter::traits::iterator::Iterator::cloned",
+                                               "core::iter::traits::collect::IntoIterator::into_iter"}).of_operand(c.args[0])
+                ok = bool(o) and all(x[0] in ("param", "upvar") for x in o)
+                rep.check(ok, R, "cursor-payload:%s:map(Cursor)" % short(b.npath), "%s maps %s through the Cursor constructor instead of the user's offsets themselves" % (short(b.npath), sorted(x[2].split("::")[-1] if x[0] == "call" else x[0] for x in o)),
+                          where=c.where(), instance={"body": short(b.npath), "payload": "elements of the --cursor list, unmodified (map(Cursor))"})
+    rep.floor(R, "Cursor values built outside the core", n, 1)
 
 
 LOSSY_CUTTERS = ("lines", "trim", "trim_start", "trim_end", "trim_ascii", "trim_ascii_start", "trim_ascii_end", "trim_matches", "trim_start_matches", "trim_end_matches",
